@@ -3,7 +3,7 @@
    Models: Geometry.v / Mesh.v at R. *)
 From Coq Require Import NArith ZArith Bool List Lia Reals Lra Permutation.
 From SC Require Import Num Vec3 VecR Rot Mesh Geometry GeometrySpec GeometryProofs.
-From SC Require SourceTies.
+From SC Require SourceTies Geometry_gen.
 Import ListNotations.
 Local Open Scope R_scope.
 
@@ -136,3 +136,16 @@ Print Assumptions vector_algebra_is_what_the_source_says.
 Theorem geometry_model_is_what_the_source_says : SourceTies.geometry_tie.
 Proof. exact SourceTies.geometry_model_is_what_the_source_says. Qed.
 Print Assumptions geometry_model_is_what_the_source_says.
+
+(* WHAT THE REGENERATED CODE DOES: two statements of C12 about the translated loop of cell::compute_volume itself (the per-face term
+   and the finalisation as regenerated from cell.cpp, folded over the used faces from 0, at R; convertible with the model): the
+   reported volume does not depend on where the closed surface is placed, and it scales with the cube of the size. *)
+Definition regenerated_volume (tris : list triR) : R :=
+  Geometry_gen.vol_final_gen NumR (fold_left (fun v p => nadd NumR v (Geometry_gen.vol_term_gen NumR p)) tris (nzero NumR)).
+
+Theorem regenerated_volume_translation_invariant : forall (nodes : list vR) (faces : list tri) (t : vR),
+  ValidSurface faces -> ids_in_range nodes faces ->
+  regenerated_volume (map (tri_pos NumR (map (fun p => p +v t) nodes)) faces) =
+  regenerated_volume (map (tri_pos NumR nodes) faces).
+Proof. exact volume_translate. Qed.
+Print Assumptions regenerated_volume_translation_invariant.
